@@ -835,3 +835,12 @@ func cfgValidScalars(cfg *ResponseConfig) bool {
 //@   noframe
 //@   loop 1 invariant 0 <= rangeidx && rangeidx <= len(urlParts) && cfg != nil && fresh(cfg) && sc != nil
 //@   loop 1 invariant sc.err == nil ==> cfg.TimeShiftBufferDepthS != nil
+
+// ---------------------------------------------------------------------------
+// C07: responses are a function of (URL, time): shared state is read-only while serving,
+// and the CMAF-ingester manager tables are (not) synchronised.
+
+//@ shared_types asset, RepData, repEncData, initEncData, assetMgr, Server, ServerConfig, Segment
+//@ startup_funcs SetupServer, newAssetMgr, discoverAssets, loadAsset, loadRep, loadFromJSON, writeToJSON, addRegExpAndInit, consolidateAsset, setReferenceRep, addEncryption, readMP4Segment, readInit, addAsset, compileTemplates, addMPDData, NewCmafIngesterMgr, Start, createLimiter, NewIPRequestLimiter, Run, main
+
+//@ guarded_by cmafIngesterMgr.noLockExists: ingesters, cancels, state
